@@ -114,6 +114,17 @@ def judge_conv(acc, f, part):
         if g != [c % (1 << n) for c in cs]:
             i = [k for k in range(len(cs)) if g[k] != cs[k] % (1 << n)][0]
             bad('uraw', 'uraw() of code %d is %d, expected %d' % (cs[i], g[i], cs[i] % (1 << n)))
+        # element reads through the keyword routes index= / item= and .item()
+        for i in sorted({0, len(cs) - 1, len(cs) // 2}):
+            acc.transitions += 6
+            acc.evaluations += 6
+            got = (int(x.astype(int, index=i)), int(x.astype(int, item=i)), int(x.get_val(int, item=i)), Fraction(float(x.get_val(item=i))),
+                   Fraction(float(x.astype(float, index=i))), Fraction(float(x.item(i))))
+            exp = (fl[i], fl[i], fl[i], vals[i], vals[i], vals[i])
+            if got != exp:
+                bad('element_read', 'code %d (=%s): astype(int,index=)/astype(int,item=)/get_val(int,item=)/get_val(item=)/astype(float,index=)/item() = %s, expected %s'
+                    % (cs[i], vals[i], [str(g) for g in got], [str(e) for e in exp]))
+                break
         if codes(x) != cs:
             bad('mutated', 'conversions changed the object')
         for c, v, fv in zip(cs, vals, fl):
